@@ -13,7 +13,7 @@ FLAG_FIELDS = ['is_read1', 'is_read2', 'is_qcfail', 'is_duplicate', 'is_unmapped
                'is_proper_pair', 'mate_is_unmapped', 'is_secondary', 'is_supplementary', 'mate_is_reverse']
 
 
-def make_read(eng, name, tags=None, fields=None, mapped=True):
+def make_read(eng, name, tags=None, fields=None, mapped=True, free_unmapped=False, absent_tags=()):
     """Arbitrary alignment record.  tags: {TAG: type}; every tag is optionally present."""
     attrs = {}
     for f in FLAG_FIELDS:
@@ -28,7 +28,8 @@ def make_read(eng, name, tags=None, fields=None, mapped=True):
         eng.assume(attrs['reference_start'].z >= 0)
         eng.assume(attrs['reference_end'].z > attrs['reference_start'].z)
         attrs['cigarstring'] = named(STR, name + '.cigarstring')
-        eng.assume(z3.Not(attrs['is_unmapped'].z))
+        if not free_unmapped:
+            eng.assume(z3.Not(attrs['is_unmapped'].z))
     else:
         attrs['reference_start'] = None
         attrs['reference_end'] = None
@@ -39,6 +40,8 @@ def make_read(eng, name, tags=None, fields=None, mapped=True):
     tg = {}
     for t, ty in (tags or {}).items():
         tg[t] = [named(BOOL, '%s.has_%s' % (name, t)), named(ty, '%s.tag_%s' % (name, t))]
+    for t in absent_tags:
+        tg[t] = [False, None]
     attrs['_vc_tags'] = tg
     o = Obj('AlignedSegment', attrs)
     eng.witness[name] = o
